@@ -61,5 +61,7 @@ if not only and len(ids) > 1:
         f.write("| benign change | result of every claimed quick check |\n|---|---|\n")
         for b, t in rows:
             f.write("| %s | %s |\n" % (b, t))
+if os.environ.get("BENIGN_OUT"):
+    json.dump([{"id": b, "result": t} for b, t in rows], open(os.environ["BENIGN_OUT"], "w"), indent=1)
 for b, t in rows:
     print(b, "->", t)
